@@ -6,6 +6,7 @@ require (
 	github.com/bolkedebruin/gokrb5/v8 v8.5.0
 	github.com/go-jose/go-jose/v4 v4.0.5
 	github.com/gorilla/sessions v1.2.2
+	github.com/jcmturner/gofork v1.7.6
 	github.com/m7913d/go-ntlm v0.0.1
 	github.com/patrickmn/go-cache v2.1.0+incompatible
 )
@@ -15,5 +16,8 @@ require golang.org/x/crypto v0.32.0 // indirect
 require (
 	github.com/gorilla/securecookie v1.1.2 // indirect
 	github.com/jcmturner/dnsutils/v2 v2.0.0 // indirect
-	github.com/jcmturner/gofork v1.7.6 // indirect
 )
+
+require github.com/bolkedebruin/rdpgw v0.0.0
+
+replace github.com/bolkedebruin/rdpgw => /repo
